@@ -103,7 +103,14 @@ class WSPeer:
                 self.sess.trace.log(*args, **kw)
             self._pending = []
 
+    def flush_logs(self) -> None:
+        """The step was cut short (server closed): what the client set out to send still counts."""
+        for args, kw in self._pending:
+            self.sess.trace.log(*args, **kw)
+        self._pending = []
+
     def step(self, st: Dict[str, Any]) -> List[bytes]:
+        self.flush_logs()
         pieces = self._step(st)
         self._np = len(pieces)
         if not pieces:
